@@ -5,6 +5,7 @@
 import KB.Backend
 import KB.Driver.Util
 import KB.Driver.Suites
+import KB.Driver.Sched
 open KB KB.Driver
 
 partial def loop {σ : Type} (h : IO.FS.Stream) (step : σ → List String → σ × String) (st : σ) : IO Unit := do
@@ -27,4 +28,5 @@ def main (args : List String) : IO Unit := do
   let stdin ← IO.getStdin
   match suiteName with
   -- one line per suite: `| "name" => loop stdin Name.step Name.init`
+  | "sched" => loop stdin Sched.step Sched.init
   | _ => loop stdin (stepSuite suiteName) (initSuite suiteName [])
